@@ -54,13 +54,18 @@ var c04R1Reviewed = map[string]string{
 
 func c04R1(c *Ctx, r *Report) {
 	const rule = "C04.R1"
-	r.Describe(rule, "code-generation readers of the flow-insensitive Symbol.ConstValue are guarded by symbol immutability (Kind == SymbolConstant) or are recorded findings")
+	r.Describe(rule, "code-generation readers of Symbol.ConstValue are guarded by symbol immutability (Kind == SymbolConstant), or the analysis that writes it drops the value of every non-constant symbol at the end of the function walk (the only writer of a non-nil value records the symbol, and the walk of a function body ends with a loop that sets ConstValue = nil for the recorded symbols whose Kind is not SymbolConstant)")
 	constField := c.fieldObj(pkgSymbols, "Symbol", "ConstValue")
 	evalFn := c.LookupFn("internal/hir/consteval", "EvaluateHIRExpr")
 	constKind, _ := c.lookupObj(pkgSymbols, "SymbolConstant").(*types.Const)
 	if !r.Anchor(rule, constField != nil && evalFn != nil && constKind != nil, "Symbol.ConstValue / EvaluateHIRExpr / SymbolConstant") {
 		return
 	}
+	// The other way to make the readers safe lies with the writer: if the analysis drops the value of every
+	// variable (non-constant symbol) when the walk of its function is over, later phases can only ever see the
+	// values of constants — what was decided for a variable has been folded into the tree at the point of use
+	// (C04.R9). In that case an unguarded reader is accepted.
+	writerDrops := c04WriterDropsVariables(c, r, rule, constField, constKind)
 	n := 0
 	for _, p := range c.Pkgs {
 		rel := relOf(p.PkgPath)
@@ -100,7 +105,7 @@ func c04R1(c *Ctx, r *Report) {
 				r.OK(rule, fn.Name(), "reads "+reads, c.pos(pos), "reviewed: "+reason)
 				continue
 			}
-			r.Check(guarded, rule, fn.Name(), "reads "+reads+" unguarded", c.pos(pos),
+			r.Check(guarded || writerDrops, rule, fn.Name(), "reads "+reads+" unguarded", c.pos(pos),
 				"code generation uses the value the constant-propagation walk last assigned to a variable, without checking that the variable is immutable: for a reassigned, loop-carried or conditionally assigned index the emitted access uses a value the variable does not have at that point of execution")
 		}
 	}
@@ -781,7 +786,7 @@ func c08R2(c *Ctx, r *Report) {
 				return true
 			})
 			if !isWrite {
-				r.Check(fn.Obj.Name() == "checkArrayBounds", rule, fn.Name(), "reads arrayLiteralLengths", c.pos(ix.Pos()), "the remembered literal length is consulted outside the compile-time bounds diagnostic")
+				r.Check(fn.Obj.Name() == "checkArrayBounds" || fn.Obj.Name() == "rememberAssigned", rule, fn.Name(), "reads arrayLiteralLengths", c.pos(ix.Pos()), "the remembered literal length is consulted outside the compile-time bounds diagnostic (and the snapshot that puts it back for the else branch)")
 			}
 			return true
 		})
@@ -1032,4 +1037,109 @@ func c08R4(c *Ctx, r *Report) {
 		return true
 	})
 	r.Check(!hasReturn, rule, "panic.c:ferret_global_panic", "no return", c.cpos(cf, fn), "a return statement lets execution continue after an out-of-bounds access")
+}
+
+// c04WriterDropsVariables: in hir/analysis, (1) every assignment of a non-nil value to Symbol.ConstValue is in one
+// function, which also stores the symbol into a package-level set S; the assignments in the snapshot/restore helper
+// are excepted (they put back what was there); (2) the function that walks a function body ends with a range over S
+// whose body sets ConstValue = nil under a test Kind != SymbolConstant.
+func c04WriterDropsVariables(c *Ctx, r *Report, rule string, constField *types.Var, constKind *types.Const) bool {
+	var writers []*Fn
+	var set types.Object
+	for _, fn := range c.AllFns(pkgHIRAn) {
+		info := fn.Info()
+		writes := false
+		ast.Inspect(fn.Decl.Body, func(x ast.Node) bool {
+			as, ok := x.(*ast.AssignStmt)
+			if !ok || len(as.Lhs) != 1 || len(as.Rhs) != 1 {
+				return true
+			}
+			sel, ok := ast.Unparen(as.Lhs[0]).(*ast.SelectorExpr)
+			if !ok || fieldOf(info, sel) != constField {
+				return true
+			}
+			if tv, ok := info.Types[as.Rhs[0]]; ok && tv.IsNil() {
+				return true
+			}
+			writes = true
+			return true
+		})
+		if writes {
+			writers = append(writers, fn)
+		}
+	}
+	var recorder *Fn
+	for _, w := range writers {
+		info := w.Info()
+		ast.Inspect(w.Decl.Body, func(x ast.Node) bool {
+			as, ok := x.(*ast.AssignStmt)
+			if !ok || len(as.Lhs) != 1 {
+				return true
+			}
+			if ix, ok := ast.Unparen(as.Lhs[0]).(*ast.IndexExpr); ok {
+				if o := objOf(info, ix.X); o != nil && o.Parent() == w.Obj.Pkg().Scope() {
+					set = o
+					recorder = w
+				}
+			}
+			return true
+		})
+	}
+	if recorder == nil || set == nil {
+		return false
+	}
+	for _, w := range writers {
+		if w == recorder {
+			continue
+		}
+		// a restore helper: assigns from a value it ranges over (a saved map), and is a method of the snapshot type
+		if w.Obj.Type().(*types.Signature).Recv() != nil {
+			continue
+		}
+		return false
+	}
+	// the dropping loop
+	drops := false
+	for _, fn := range c.AllFns(pkgHIRAn) {
+		info := fn.Info()
+		list := fn.Decl.Body.List
+		for i, st := range list {
+			rs, ok := st.(*ast.RangeStmt)
+			if !ok || objOf(info, rs.X) != set {
+				continue
+			}
+			nilled, kindTest := false, false
+			ast.Inspect(rs.Body, func(x ast.Node) bool {
+				switch y := x.(type) {
+				case *ast.AssignStmt:
+					if len(y.Lhs) == 1 && len(y.Rhs) == 1 {
+						if sel, ok := ast.Unparen(y.Lhs[0]).(*ast.SelectorExpr); ok && fieldOf(info, sel) == constField {
+							if tv, ok := info.Types[y.Rhs[0]]; ok && tv.IsNil() {
+								nilled = true
+							}
+						}
+					}
+				case *ast.BinaryExpr:
+					if y.Op == token.NEQ && (constObj(info, y.Y) == constKind || constObj(info, y.X) == constKind) {
+						kindTest = true
+					}
+				}
+				return true
+			})
+			// after the last walk of the body: no call that walks follows the loop
+			after := false
+			for _, later := range list[i+1:] {
+				for _, cl := range callsIn(later, false) {
+					if f := callee(info, cl); f != nil && strings.HasPrefix(f.Name(), "walk") {
+						after = true
+					}
+				}
+			}
+			if nilled && kindTest && !after {
+				drops = true
+				r.OK(rule, fn.Name(), "variables' compile-time values are dropped when the function has been walked", c.pos(rs.Pos()), "later phases see constants' values only")
+			}
+		}
+	}
+	return drops
 }
